@@ -140,6 +140,12 @@ func c02Explore(rep *vrep.Report, seed int64, cfg c02Cfg) {
 	maxDepth := 0
 	var lastHist []c02Op
 	for len(frontier) > 0 {
+		if rep.NViolations() > 0 {
+			// something is already reported for this run: no need to explore the rest of a state space that a
+			// broken store may have made much larger
+			rep.NotExhaustive("exploration stopped after the first violations")
+			break
+		}
 		n := frontier[0]
 		frontier = frontier[1:]
 		if len(n.hist) > maxDepth {
